@@ -12,15 +12,14 @@ PROPS["C13"] = {
     "modelled": "syntax/expand.go: Expand (both phases), expandRule, expandExpr, extractNonterm (ProvisionalName, Equal, name_N suffixes), sortTail, "
                 "concat/multiConcat/collapseEmpty, list and optional rule synthesis; syntax/syntax.go: Expr.Equal, Model.Rearrange; util/ident.Produce (C28 model) inside ProvisionalName; "
                 "DefaultExpandOptions and untyped symbols (no synthesised list/optional commands), group = 0 (models not produced by Instantiate)",
-    "partial": "the whole-model statement (ext_lang M X w <-> derives (expand M) X w) is not one theorem: proved are the universal per-step equivalences "
-               "(expandExpr / expandRule / a whole nonterminal for every expression kind incl. lists, sets, reuse; the phase-2 list and optional rules are a correct "
-               "unfolding), missing is the least-fixpoint gluing and the consistency of the Rearrange permutation; compiler/syntax.go convertPart/convertRules "
-               "are covered by the .tm end-to-end oracle only (no model); updateArgRefs/CmdArgs/Pos belong to C16",
-    "level_text": "Universal Coq theorems: for every expression e (any nesting of optional, choice, sequence, lists with separators, sets, lookaheads, wrappers), "
-                  "every expander state and every interpretation of the nonterminals that gives each extracted nonterminal the meaning of the expression it was extracted from, "
-                  "the alternatives produced by expandExpr denote exactly the language of e (multiConcat = product of languages; reuse by Expr.Equal is sound); the same for a whole "
-                  "nonterminal (rules, %prec, collapseEmpty); the rules written for an extracted list/optional denote the list (left/right recursive, with/without separator); "
-                  "every produced alternative is free of sugar. The step-by-step model is compared exactly with syntax.Expand, and the implementation's own output "
+    "partial": "C13_expand_correct covers the whole model of Expand under the boolean side condition expand_checks (evaluated on every generated model: no Fatal branch, references in range, "
+               "the sortTail permutation is a permutation); not proved: that expand_checks holds for every well-formed model. The bridge to Derive.derives (C13_flat_table_is_cfg) is for tables of flat choices "
+               "(no set / lookahead nonterminals left). compiler/syntax.go convertPart/convertRules are covered by the .tm end-to-end oracle only (no model); updateArgRefs/CmdArgs/Pos belong to C16",
+    "level_text": "Universal Coq theorems: C13_expand_correct - for every model passing the boolean side conditions and every original nonterminal X, the language of X in the extended notation "
+                  "(least solution of the value equations: optional, nested choice, sequence, wrappers, lists with separators, sets, lookaheads) equals the language of perm(X) in the table produced by the model of "
+                  "syntax.Expand (phase 1 with extraction and reuse by Equal, sortTail/Rearrange, phase 2 list and optional rules); C13_flat_table_is_cfg - the least solution of a table of flat choices is exactly "
+                  "Derive.derives of the plain grammar read from it; plus the per-step theorems (expandExpr, a whole nonterminal, multiConcat = product, list rules unfold, Equal-sound reuse, sugar-free shape, "
+                  "extracted lists are non-empty or separator-free). The step-by-step model is compared exactly with syntax.Expand, and the implementation's own output "
                   "(from the API and from compiler.Compile on generated .tm text) is checked against the extended-notation semantics on all short words.",
     "level_note": "Trusted: Coq kernel, extraction, OCaml/Go/Python glue; Derive.v chart recogniser and the ExtLang.v recogniser are specification oracles (not proved here). "
                   "Known finding: a set(...) without terminals yields a nonterminal deriving the empty string (kept by syntax/set_test.go).",
